@@ -47,7 +47,44 @@ func checkC10(c *Ctx) {
 			return false
 		}
 		g := eng.StaticCallee(call.Common())
-		return g == writeIndex || (g != nil && eng.FuncPkgPath(g) == eng.Mod+"/"+fileRel && reachesSync(g, writeIndex))
+		if g == writeIndex || (g != nil && eng.FuncPkgPath(g) == eng.Mod+"/"+fileRel && reachesSync(g, writeIndex)) {
+			return true
+		}
+		// the other way an (empty) mailbox is made durable: its directory is removed — an absent
+		// index reads as an empty mailbox (C07/EMPTY). Counted only where the list is known to be
+		// empty: behind a `len(messages) == 0` edge, or after it was cut to [:0] in this function
+		if g != nil && fm.removeDir != nil && eng.FuncPkgPath(g) == eng.Mod+"/"+fileRel && (g == fm.removeDir || reachesSync(g, fm.removeDir)) {
+			fn := call.Parent()
+			for _, b := range fn.Blocks {
+				for k := 0; k < len(b.Succs) && len(b.Succs) == 2; k++ {
+					rel, okR := eng.EdgeRel(b, k)
+					if !okR || rel.Op != token.EQL || !eng.EdgeDominates(b, k, call.Block()) {
+						continue
+					}
+					if kk, isK := eng.ConstInt(rel.Y); isK && kk == 0 {
+						if lx := eng.LenOf(eng.StripConv(rel.X)); lx != nil && eng.SameField(eng.LoadedField(lx), pm.fileMsgs) {
+							return true
+						}
+					}
+				}
+			}
+			cleared := false
+			eng.EachInstr(fn, func(x ssa.Instruction) {
+				st, isSt := x.(*ssa.Store)
+				if !isSt || !eng.Dominates(x, call) {
+					return
+				}
+				if fa, isFA := st.Addr.(*ssa.FieldAddr); isFA && eng.SameField(eng.FieldOfAddr(fa), pm.fileMsgs) {
+					if sl, isSl := st.Val.(*ssa.Slice); isSl && sl.High != nil {
+						if hk, isK := eng.ConstInt(sl.High); isK && hk == 0 {
+							cleared = true
+						}
+					}
+				}
+			})
+			return cleared
+		}
+		return false
 	}
 	successRet := func(in ssa.Instruction) bool {
 		ret, ok := in.(*ssa.Return)
